@@ -21,7 +21,7 @@ import json,sys
 id_,prop,suite,red,green=sys.argv[1:6]
 ok = 'failed' in suite and ' 0 failed' in suite and 'FAILED' not in suite and 'FAILED' in red and 'ok.' in green
 json.dump({"id":id_,"breaks":prop,"confirmed":ok,"suite_with_patch":suite,"demo_with_patch":red,"demo_without_patch":green,
- "ran":"tools/verify_seed.sh in a scratch worktree of /repo HEAD: cargo test --offline --no-fail-fast (suite, demo moved aside); cargo test --offline --test seeded_demo with and without the patch (git stash)"},
+ "ran":"tools/verify_seed.sh in a scratch worktree of /repo HEAD: cargo test --offline --no-fail-fast (suite, demo moved aside); cargo test --offline --test seeded_demo with and without the patch (git apply -R)"},
  open(f"/verif/seeded/{id_}/meta.json","w"),indent=1)
 print("confirmed" if ok else "NOT CONFIRMED")
 PY
